@@ -80,8 +80,8 @@ def build(case):
                 level = cuts[i]
             size = int(rng.integers(100, 2001))
             null = i < c["null_left"] or i >= n - c["null_right"] or rng.random() < c["null_frac"]
-            if case["all_null_chrom"] and ci == len(case["chroms"]) - 1 and len(case["chroms"]) > 1:
-                null = True
+            if case["all_null_chrom"] and len(case["chroms"]) > 1 and ci == (case["seed"] % len(case["chroms"])):
+                null = True  # one chromosome (first, middle or last) loses every bin
             v = level + float(rng.normal(0, case["sd"]))
             if gene_run <= 0:
                 gene_run = int(rng.integers(1, 8))
